@@ -46,7 +46,8 @@ ASSUMPTIONS = ["node functions are deterministic and raise iff an argument is ne
                "every macro parameter feeds exactly one child input (no UserInput nodes remain inside macros)",
                "the cache key of a composite is reset by loading (children are re-adopted); not compared between memory and file",
                "checkpoint protocol read from the statement: same as for a recovery file (fix, clear failure flags, run); "
-               "clearing `running` is NOT part of it -- see known finding S19"]
+               "clearing `running` is NOT part of it -- see known findings S19 (refused) and S28 (file cannot be loaded)",
+               "every run is given 10 s (SIGALRM); a run that does not end is reported as TIMEOUT"]
 
 from pyiron_workflow.nodes.function import as_function_node  # noqa: E402
 from pyiron_workflow.nodes.macro import as_macro_node  # noqa: E402
@@ -240,6 +241,7 @@ def _node_coq(tree, spec, path, pvals):
     """pvals: initial values of the enclosing macro's inputs (what was pushed at construction)"""
     o = orders(tree)
     inp, vals = [], []
+    par_order = []
     if path:
         par_order = o[tuple(path[:-1])]
     for x in spec[2]:
@@ -327,12 +329,26 @@ def snap(tree, root):
     return go(root, tree, ())
 
 
+class _Timeout(BaseException):
+    pass
+
+
+def _alarm(signum, frame):
+    raise _Timeout()
+
+
 def _verdict(fn):
+    """run fn; the class of what it raised (a run that does not end within 10 s is reported as such)"""
+    import signal
     from pyiron_workflow.mixin.run import ReadinessError
     from pyiron_workflow.nodes.composite import FailedChildError
+    old = signal.signal(signal.SIGALRM, _alarm)
+    signal.alarm(10)
     try:
         fn()
         return "ok"
+    except _Timeout:
+        return "TIMEOUT"
     except nodes.UserExc:
         return "UserExc"
     except ReadinessError:
@@ -343,6 +359,9 @@ def _verdict(fn):
         return "RuntimeError"
     except Exception as e:      # noqa
         return "EXC:" + type(e).__name__
+    finally:
+        signal.alarm(0)
+        signal.signal(signal.SIGALRM, old)
 
 
 def _files():
